@@ -19,6 +19,22 @@ CLAIMED["C08"] = ("exploration",
   "Trusts that the simulator owns every other source of nondeterminism (clock, UUID, random, HTTP, SMTP seams) - which this check itself tests. Map iteration order is sampled by repetition (probability >= 1/2 per visit of an order-dependent site with >= 2 keys), not yet controlled.",
   "DESIGN.md §5 C08")
 
+def sim_claim(pid, tech, text, note):
+    CLAIMED[pid] = ("exploration", "deterministic simulation with fault injection: " + tech, text + " Seeded search over simulated deployments (generated flows, assets, contacts, engine options; timers, personas, delivery/service/clock/stale-data faults; a separate fault-free configuration). A clean batch is evidence, not proof.", note, "DESIGN.md §5 " + pid)
+
+sim_claim("C01", "state-machine invariants evaluated after every engine call and over the recorded history",
+  "After every engine call that returned without error the oracle checks the session status, the waiting run and its node's wait (against the definition that sprint ran with), ancestors of active runs, the walk property of each transition taken in this sprint, exited_on vs status, and that the events each run gained are a subsequence of the sprint's events naming steps of that run.",
+  "Trusts the simulated host's use of the public API; transitions taken under definitions that asset faults have since replaced are judged against the definition the sprint ran with; nothing is asserted after a Go error.")
+sim_claim("C03", "event-sourced replica: host's own generic-JSON event applier vs the engine's contact, after every sprint and every directly applied modifier; modifier iff/idempotence",
+  "Replaying each sprint's events (own applier, no goflow contact code) over the contact as it was before must reproduce the session contact; the host's event-sourced row must agree whenever the session was handed it; every directly applied modifier (all types, multi-URN/multi-group payloads, values at and beyond limits) must report modified iff the contact changed iff a change event was emitted, and do nothing when applied again at the same instant.",
+  "The applier mirrors what a host database does with the documented event payloads; last-seen is taken from the instant of the message the host handed in; the two applications of a modifier share one simulated instant (date-only values are completed from the clock).")
+sim_claim("C05", "per-call no panic / no hang (watchdog + fresh-process confirmation) / step count / status; limit-caused Go errors by differential re-execution from the same seam snapshot; length scans of events",
+  "Every engine call must return (watchdog), not panic (recover), create at most MaxStepsPerSprint steps, end failed only with a failure event, accept at most MaxResumesPerSession resumes per session, and emit texts/names/fields/results within the configured limits; a Go error is re-executed from the same pre-state with only the step/resume limits x1000 to decide whether the limit caused it. Engine options are randomised per run (1..100 steps, 1..500 resumes, 4..10000 chars).",
+  "Limits below 4 characters are excluded (gocommon TruncateEllipsis panics for limits < 3). Quick-reply (64) and attachment (2048) limits are the documented constants written as literals.")
+sim_claim("C06", "membership == query result at every hand-back and after every effective direct modifier, over histories that change attributes by every route",
+  "For every query-based group of the assets in force: contact in group iff CheckQueryBasedMembership is true, after every sprint (trigger and resume paths, UI edits between sprints, stale stored membership) and after every effective direct modifier; contacts that became non-active must have left their static groups.",
+  "Uses the repository's own query evaluator on the final contact (its correctness is C15's subject); where the session's base and merged environments disagree on a date condition either result is accepted (counted); a modifier that changes nothing is not required to repair stale stored membership.")
+
 NOT_BUILT = {
 }
 
